@@ -873,7 +873,7 @@ _I64 = [0, 1, -1, 2**63 - 1, -(2**63), 2**53 + 1, -64, 128, -8192, 2**34, -(2**3
 _U32 = [0, 1, 2**32 - 1, 127, 128, 16383, 16384, 2**28]
 _U64 = [0, 1, 2**64 - 1, 2**63, 128, 2**35, 2**56]
 _F32MAX = 3.4028234663852886e38
-_FLOAT = [0.0, -0.0, 1.5, float("inf"), float("-inf"), float("nan"), _F32MAX]
+_FLOAT = [0.0, -0.0, 1.5, float("inf"), float("-inf"), float("nan"), _F32MAX, 1.401298464324817e-45]      # the last: smallest float32 denormal
 _DOUBLE = _FLOAT + [1e308, 5e-324]
 # doubles that are not float32 values but are legal in a float field (they round): the usual FLT_MAX literal and the
 # largest double that still rounds to a finite float32, values that round in the mantissa, one that rounds up to the
@@ -882,7 +882,7 @@ _DOUBLE = _FLOAT + [1e308, 5e-324]
 _FLOAT32_ROUNDING = [3.4028235e38, -3.4028235e38, 3.4028235677973362e38, 0.1, 16777217.0, 1.401298464324817e-45 * 0.75]
 # the last entries sit on the length-prefix boundaries (127 | 128 bytes, 16383 | 16384 bytes)
 _STR = ["", "a", "é", "\U0001F600", "\x00", "y" * 127, "y" * 128, "z" * 16384]
-_BYTES = [b"", b"\x00", b"\xff\x00abc", b"\x07" * 128]
+_BYTES = [b"", b"\x00", b"\xff\x00abc", b"\x07" * 128, b"\xfb\xef\xbe\xfb"]      # the last one is "+++++w==" in base64 ('+', two pads)
 
 
 def _tz(h, m=0):
